@@ -270,6 +270,6 @@ PARTS = {'closure': closure, 'compare': compare}
 
 
 def plan(tier):
-    mags = MAGS + [-2.5, 7.0] if tier == 'quick' else MAGS + [0.0, -2.5, 1e-3, 7.0, 100.0]       # 7 and 100 rad: more than one turn
+    mags = MAGS + [-2.5, 7.0, 400.0] if tier == 'quick' else MAGS + [0.0, -2.5, 1e-3, 7.0, 100.0, 400.0]       # 7 and 100 rad, 400 deg / o'clock: more than one turn (the constructor wraps; whatever it stored stays what it is)
     cl = [[dim, u, m] for dim, us in R.DIMENSIONS.items() for u in us for m in mags]
     return [('closure', cl), ('compare', list(R.DIMENSIONS))]
